@@ -86,11 +86,6 @@ for t in ['i32', 'i64', 'float', 'double']:
                      defines=['CQV_PW=%d' % PWT[t], 'CQV_STATS_EXACT=8'], unwindset=['memcpy.0:9'], min_loop_obligations=1,
                      timeout=300, soft=PW_SOFT, wip=True, **PW))
 for t in ['float', 'double']:
-    JOBS.append(dict(name='c16_pw_update_statistics_%s_first_not_nan' % t, entry='h_update_statistics', enforce='update_statistics_%s' % t,
-                     defines=['CQV_PW=%d' % PWT[t], 'CQV_STATS_EXACT=8', 'CQV_PW_FIRST_NOT_NAN=1'], unwindset=['memcpy.0:9'],
-                     min_loop_obligations=1, timeout=300, soft=PW_SOFT, level='bounded',
-                     bound='the value that initialises min/max (first value of a page, or the bounds so far) is not NaN; NaN-first: see c16_pw_update_statistics_%s' % t,
-                     wip=True, **PW))
     JOBS.append(dict(name='c16_pw_%s_seq' % t, entry='h_pw_fp_seq', loop_contracts=False, unwind=9,
                      defines=['CQV_PW=%d' % PWT[t], 'CQV_STATS_EXACT=8'], level='bounded', bound='page statistics reset, one update with 1..3 values',
                      functions=['update_statistics_%s' % t],
@@ -105,11 +100,12 @@ for t in ['i32', 'i64', 'float', 'double']:
     JOBS.append(dict(name='c16_range_overlaps_%s' % t, entry='h_range_overlaps', loop_contracts=False, defines=['CQV_BT=%d' % BT[t], 'CQV_STATS_EXACT=8'],
                      functions=['carquet_statistics_range_overlaps', 'compare_%s' % dict(i32='int32', i64='int64').get(t, t)], wip=True, **BD))
 PI = dict(prop='C16', harness='harness/C16/page_index.c', overlays=['contracts/page_index.ovl'], includes=['.'], extra_sources=STUBS,
-          trusted=TR, loop_contracts=False, functions=['carquet_column_index_page_might_match'])
-JOBS.append(dict(name='c16_page_might_match_i32', entry='h_page_might_match_i32', defines=['CQV_PT=1'], wip=True,
-                 replayer=dict(kind='direct', harness='replay/direct/stats_page_might_match.c',
-                               sources=['src/core/buffer.c', 'src/thrift/thrift_encode.c'],
-                               vars=dict((v, v) for v in ['pmin', 'pmax', 'qmin', 'qmax', 'x', 'present'])), **PI))
+          trusted=TR, loop_contracts=False, functions=['carquet_column_index_page_might_match', 'page_value_compare'])
+for t in ['i32', 'i64', 'float', 'double']:
+    rp = 'replay/direct/stats_page_might_match%s.c' % ('' if t == 'i32' else '_' + RN[t])
+    JOBS.append(dict(name='c16_page_might_match_%s' % t, entry='h_page_might_match_num', defines=['CQV_PT=%d' % BT[t], 'CQV_STATS_EXACT=8'], wip=True,
+                     replayer=dict(kind='direct', harness=rp, sources=['src/core/buffer.c', 'src/thrift/thrift_encode.c'],
+                                   vars=dict((v, v) for v in ['pmin', 'pmax', 'qmin', 'qmax', 'x', 'present'])), **PI))
 JOBS.append(dict(name='c16_page_might_match_bytes', entry='h_page_might_match_bytes', defines=['CQV_PT=6'], level='bounded',
                  bound='page min/max 1..8 bytes, query values and the witness value at most 8 bytes', wip=True, **PI))
 
